@@ -66,6 +66,8 @@ structure Quirks where
   subsSequential : Bool := false
   /-- `bind_function.exp_rename` prefixes one free symbol after the other -/
   renameSequential : Bool := false
+  /-- decopt splices a re-synthesised section in although the re-synthesis renamed a qubit -/
+  spliceIgnoresRename : Bool := false
   deriving Repr, DecidableEq, Inhabited
 
 def Quirks.none : Quirks := {}
@@ -99,6 +101,7 @@ def Quirks.ofList (l : List String) : Quirks :=
     evalSeesLocals := l.contains "evalSeesLocals"
     argIndexFromName := l.contains "argIndexFromName"
     subsSequential := l.contains "subsSequential"
-    renameSequential := l.contains "renameSequential" }
+    renameSequential := l.contains "renameSequential"
+    spliceIgnoresRename := l.contains "spliceIgnoresRename" }
 
 end QV
